@@ -790,6 +790,15 @@ func (l *listUsersQuery) expandExclusion(
 		subtractFoundUsersMap[key] = fu
 	}
 
+	// A cancelled or timed-out context may have cut either branch short. With an incomplete
+	// subtracted branch, base users would be emitted that are in fact excluded: partial results
+	// (deadline, result limit) must stay sound, so nothing is emitted from here in that case.
+	if ctx.Err() != nil {
+		return expandResponse{
+			err: ctx.Err(),
+		}
+	}
+
 	if subtractHasCycle {
 		// Because exclusion contains the only bespoke treatment of
 		// cycle, everywhere else we consider it a falsey outcome.
